@@ -130,26 +130,34 @@ Theorem sensitivity_search_spec : ∀ (T : circuit) (m w : nat) (cnt : val → n
 Proof. exact search_max. Qed.
 Print Assumptions sensitivity_search_spec.
 
-(* composed with the transform theorem: the search over the MODEL's sensitivity circuit returns the sensitivity.
-   Full statement (not claimed): the same without the three certificate hypotheses on T. *)
-Definition sensitivity_spec_full : Prop := ∀ (solve : list (string * bool) → bool) C n ord PC T W w,
-  comb (c_g C) → pc_inputs (c_g PC) (length ord) → popcount_correct (c_g PC) (length ord) W →
-  sensitivity_transform C n ord PC = Ok T → clog2 (length ord) = Ok w → clog2 (length ord + 1) = Ok W →
-  (∀ k, k ≤ length ord → let asm := asm_of (int_to_bin_le k w) in
-     solve asm = true ↔ ∃ v, consistent (c_g T) v ∧ Forall (λ p : string * bool, v p.1 = p.2) asm) →
-  ∃ k, search solve w (length ord) = Ok k ∧ is_sensitivity (c_g C) n ord k.
-(* proved: with the certificate of T as hypotheses (closed, acyclic, free nodes = the startpoints: they give a consistent valuation
-   for every input vector).  `holds` checks exactly this certificate on every recorded circuit (theorem `certificate`). *)
-Theorem sensitivity_spec_partial : ∀ (solve : list (string * bool) → bool) C n ord PC T W w,
-  comb (c_g C) → pc_inputs (c_g PC) (length ord) → popcount_correct (c_g PC) (length ord) W →
+(* composed with the transform theorem: the search over the MODEL's sensitivity circuit returns the sensitivity, for all inputs.
+   The certificate of the sensitivity circuit (closed, acyclic, free nodes = the startpoints) is proved from the one of the popcount
+   circuit (`pc_cert`: closed, acyclic, free nodes exactly in_0..in_{m-1}), which C13 proves for logic.popcount. *)
+Theorem sensitivity_certificate : ∀ C n ord PC T W,
+  comb (c_g C) → pc_cert (c_g PC) (length ord) →
+  sensitivity_transform C n ord PC = Ok T → clog2 (length ord + 1) = Ok W →
+  closed (c_g T) ∧ acyclic (c_g T) ∧ free_nodes (c_g T) = list_to_set ord.
+Proof. exact sv_model_cert. Qed.
+Print Assumptions sensitivity_certificate.
+Theorem sensitivity_spec : ∀ (solve : list (string * bool) → bool) C n ord PC T W w,
+  comb (c_g C) → pc_cert (c_g PC) (length ord) → popcount_correct (c_g PC) (length ord) W →
   sensitivity_transform C n ord PC = Ok T →
-  closed (c_g T) → acyclic (c_g T) → free_nodes (c_g T) = list_to_set ord →
   clog2 (length ord) = Ok w → clog2 (length ord + 1) = Ok W →
   (∀ k, k ≤ length ord → let asm := asm_of (int_to_bin_le k w) in
      solve asm = true ↔ ∃ v, consistent (c_g T) v ∧ Forall (λ p : string * bool, v p.1 = p.2) asm) →
   ∃ k, search solve w (length ord) = Ok k ∧ is_sensitivity (c_g C) n ord k.
-Proof. exact sensitivity_model_spec. Qed.
-Print Assumptions sensitivity_spec_partial.
+Proof. exact sensitivity_model_full. Qed.
+Print Assumptions sensitivity_spec.
+(* with PC = logic.popcount(len(startpoints)) (C13: correct, combinational): only the solver is assumed *)
+Theorem sensitivity_spec_popcount : ∀ (solve : list (string * bool) → bool) C n ord PC T W w,
+  comb (c_g C) → Logic.popcount (length ord) = Ok PC →
+  sensitivity_transform C n ord PC = Ok T →
+  clog2 (length ord) = Ok w → clog2 (length ord + 1) = Ok W →
+  (∀ k, k ≤ length ord → let asm := asm_of (int_to_bin_le k w) in
+     solve asm = true ↔ ∃ v, consistent (c_g T) v ∧ Forall (λ p : string * bool, v p.1 = p.2) asm) →
+  ∃ k, search solve w (length ord) = Ok k ∧ is_sensitivity (c_g C) n ord k.
+Proof. exact sensitivity_popcount_full. Qed.
+Print Assumptions sensitivity_spec_popcount.
 (* the early exit: a primary input has sensitivity 1 *)
 Theorem sensitivity_of_input : ∀ c n i, c !! n = Some i → n_ty i = Input → is_sensitivity c n [n] 1.
 Proof. exact sensitivity_input. Qed.
@@ -303,15 +311,17 @@ Proof.
   destruct (sensitivity_transform_spec ex_c2 "g" ["a"] ex_pc ex_T2C 1 ex_comb2 ex_pc_inputs ex_accepted2 eq_refl v Hv) as [H1 H2].
   split; [apply (H1 "a"); by left|apply H2, ex_pc_correct].
 Qed.
+Example ex_pc_cert : pc_cert (c_g ex_pc) 1.
+Proof.
+  split; [apply closedb_spec; vm_compute; reflexivity|apply acyclicb_sound; vm_compute; reflexivity|by_bool|exact ex_pc_inputs].
+Qed.
 (* the whole chain for this circuit: the search over the model's sensitivity circuit with the brute-force solver returns a
-   number that is the sensitivity of g (all hypotheses of sensitivity_spec_partial discharged) *)
+   number that is the sensitivity of g (all hypotheses of sensitivity_spec discharged) *)
 Example ex_sensitivity : ∃ k, search (bf_solve ex_T2 ["a"]) 0 1 = Ok k ∧ is_sensitivity (c_g ex_c2) "g" ["a"] k.
 Proof.
-  assert (HclT : closed ex_T2) by (apply closedb_spec; vm_compute; reflexivity).
-  assert (HacT : acyclic ex_T2) by (apply acyclicb_sound; vm_compute; reflexivity).
-  assert (HfT : free_nodes ex_T2 = list_to_set ["a"]) by by_bool.
-  refine (sensitivity_spec_partial (bf_solve ex_T2 ["a"]) ex_c2 "g" ["a"] ex_pc ex_T2C 1 0
-            ex_comb2 ex_pc_inputs ex_pc_correct ex_accepted2 HclT HacT HfT eq_refl eq_refl _).
+  destruct (sensitivity_certificate ex_c2 "g" ["a"] ex_pc ex_T2C 1 ex_comb2 ex_pc_cert ex_accepted2 eq_refl) as (HclT & HacT & HfT).
+  refine (sensitivity_spec (bf_solve ex_T2 ["a"]) ex_c2 "g" ["a"] ex_pc ex_T2C 1 0
+            ex_comb2 ex_pc_cert ex_pc_correct ex_accepted2 eq_refl eq_refl _).
   intros k Hk asm. apply bf_solve_ok; [exact HclT|exact HacT|exact HfT|].
   assert (k = 0 ∨ k = 1) as [->| ->] by (simpl in Hk; lia);
     intros p [->|[]%elem_of_nil]%elem_of_cons; apply elem_of_dom; eexists; vm_compute; reflexivity.
